@@ -86,6 +86,14 @@ def cases(tier, inst):
     for a, b, c in itertools.product(XY_REP[:3], repeat=3):
         yield (("and", ("or", a, b), c), k)
         yield (("or", a, ("and", b, c)), k)
+    # negated ordering comparisons between the two variables next to another condition (either of them may be evaluated
+    # with the other one's variable already bound, in either operand order after the rewrites)
+    ords = [("cmp", "lt", A(X, "q"), A(Y, "q")), ("cmp", "ge", A(Y, "p"), A(X, "p")), ("cmp", "le", A(X, "p"), A(Y, "q"))]
+    for a in XY_REP:
+        for b in ords:
+            yield (("and", a, ("not", b)), k)
+            yield (("or", ("not", b), a), k)
+            yield (("not", ("or", ("not", a), b)), k)
     # only some of the variables selected (the other one is a join variable that is projected away)
     proj = leaves_xy()[:7]
     for a, b, c in itertools.permutations(proj, 3):
